@@ -214,3 +214,23 @@ M("C17", "role-taker-any-class", CDF, "                if wrapped_field.is_role_
 R("C17", "deepcopy-graph", CDF, "        result._dependency_graph = self._dependency_graph.copy()\n", "        result._dependency_graph = rx.PyDiGraph.copy(self._dependency_graph)\n")
 R("C17", "optional-form", WFF, "            return len(args) == 2 and NoneType in args", "            return NoneType in args and len(args) == 2")
 CASES[:] = [c for c in CASES if c]
+
+# ------------------------------------------------------------------------------------- C06
+WTF = "krrood/ormatic/wrapped_table.py"
+OMF = "krrood/ormatic/ormatic.py"
+M("C06", "no-builtins-import", OMF, "        self.imported_modules.add(int.__module__)\n", "", "ORM-IMPORTS@WrappedTable.primary_key#builtins")
+M("C06", "json-endpoint-import", WTF, "        self.ormatic.imported_modules.add(wrapped_field.type_endpoint.__module__)\n        column_name", "        column_name", "create_json_column#endpoint")
+M("C06", "builtin-column-import-dropped", WTF, "        self.ormatic.imported_modules.add(wrapped_field.type_endpoint.__module__)\n        inner_type", "        inner_type", "create_builtin_column#endpoint")
+M("C06", "imports-plain-set", OMF, "imported_modules: SortedSet[str] = field(default_factory=SortedSet, init=False)", "imported_modules: SortedSet[str] = field(default_factory=set, init=False)", "ORM-DETERMINISM")
+M("C06", "tables-from-set", OMF, "        for wrapped_clazz in self.wrapped_classes_in_topological_order:\n", "        for wrapped_clazz in set(self.wrapped_classes_in_topological_order):\n", "ORM-DETERMINISM")
+M("C06", "enum-after-one-to-one", WTF, "        elif (\n            wrapped_field.is_builtin_type or wrapped_field.is_enum\n        ) and not wrapped_field.is_container:", "        elif wrapped_field.is_builtin_type and not wrapped_field.is_container:", "parse_field#enum")
+M("C06", "optional-reference-dropped", WTF, "            wrapped_field.is_one_to_one_relationship\n            and wrapped_field.type_endpoint in self.ormatic.mapped_classes\n        ):", "            wrapped_field.is_one_to_one_relationship\n            and not wrapped_field.is_optional\n            and wrapped_field.type_endpoint in self.ormatic.mapped_classes\n        ):", "parse_field#optional-mapped")
+M("C06", "json-before-type", WTF, "        if wrapped_field.is_type_type:\n            logger.info(f\"Parsing as type.\")\n            self.create_type_type_column(wrapped_field)\n\n        elif (", "        if False:\n            pass\n        elif (", "parse_field#type-of")
+M("C06", "set-collection-dropped", WTF, "        elif wrapped_field.is_one_to_many_relationship:\n            logger.info(f\"Parsing as one to many relationship.\")", "        elif wrapped_field.is_one_to_many_relationship and wrapped_field.container_type is list:\n            logger.info(f\"Parsing as one to many relationship.\")", "parse_field#collection-of-mapped", allow_error=True)
+M("C06", "private-not-skipped", WTF, "            if f.field.name.startswith(\"_\"):\n                logger.info(f\"Skipping since the field starts with _.\")\n                continue\n", "", "private-skipped")
+M("C06", "skip-dunder-and-more", WTF, "            if f.field.name.startswith(\"_\"):", "            if f.field.name.startswith(\"_\") or f.field.name.endswith(\"_\"):", "parse_fields")
+M("C06", "no-identity-for-child", WTF, "        if self.parent_table is not None:\n            self.mapper_args.update(\n                {\n                    \"'polymorphic_identity'\": f\"'{self.tablename}'\",\n                }\n            )", "        if self.parent_table is not None:\n            pass", "create_mapper_args")
+M("C06", "root-polymorphic-only-joined", WTF, "        if self.parent_table is None and self.has_children:", "        if self.parent_table is None and self.has_children and self.ormatic.inheritance_strategy == InheritanceStrategy.JOINED:", "create_mapper_args")
+M("C06", "assoc-name-without-field", WTF, "            f\"{self.tablename.lower()}_{wrapped_field.field.name}_association\"", "            f\"{self.tablename.lower()}_{target_wrapped_table.tablename.lower()}_association\"", "association-table-name", allow_error=True)
+R("C06", "builtins-literal", OMF, "        self.imported_modules.add(int.__module__)\n", "        self.imported_modules.add(\"builtins\")\n")
+R("C06", "dispatch-reorder-independent", WTF, "            wrapped_field.is_collection_of_builtins\n            or wrapped_field.type_endpoint in self.ormatic.type_mappings\n            and wrapped_field.is_container", "            (wrapped_field.type_endpoint in self.ormatic.type_mappings\n            and wrapped_field.is_container) or wrapped_field.is_collection_of_builtins")
